@@ -40,6 +40,7 @@ type Step struct {
 	Cfg     *NodeCfg `json:"cfg,omitempty"`    // reconfig: restart with this configuration
 	NoInfo  bool     `json:"no_info,omitempty"` // upgrade: restart without upgrade-info.json
 	HQ      *HQuery  `json:"hq,omitempty"`      // hquery: a hostile query issued against every live replica
+	// simulate: the transaction is only simulated (never broadcast) on one replica (0 = the reference replica)
 }
 
 type RunConfig struct {
@@ -61,6 +62,10 @@ type Script struct {
 	Tier     string    `json:"tier"`
 	Config   RunConfig `json:"config"`
 	Steps    []Step    `json:"steps"`
+	// Prelude: seeds of the runs that the same worker process executed before this one. Only set when the violation
+	// does not reproduce in a fresh process without them, i.e. when it depends on process-global state left behind
+	// by earlier runs (itself a finding: state that is neither in the store nor reset per request).
+	Prelude []uint64 `json:"prelude_seeds,omitempty"`
 	// filled in replay files
 	Violation *Violation `json:"violation,omitempty"`
 	TraceHash string     `json:"trace_sha256,omitempty"`
